@@ -21,6 +21,10 @@ const (
 	dummyAudioFilterStageDummy    = 3
 )
 
+// dummyAudioFilterMaxGapMs 视频时间戳向前跳跃超过该阈值时，不再逐帧补静音包（否则单个视频包的处理开销与跳跃的大小成正比），
+// 而是直接从新的时间戳处重新开始制造静音包
+const dummyAudioFilterMaxGapMs = 10000
+
 type DummyAudioFilter struct {
 	uk          string
 	waitAudioMs int
@@ -145,14 +149,25 @@ func (filter *DummyAudioFilter) handleDummyStage(msg base.RtmpMsg) {
 		filter.onPopProxy(msg)
 		filter.prevAudioTs = ats
 	} else {
-		for {
-			ats := filter.prevAudioTs + filter.calcAudioDurationMs()
-			if ats > msg.Header.TimestampAbs {
-				break
-			}
+		if msg.Header.TimestampAbs > filter.prevAudioTs && msg.Header.TimestampAbs-filter.prevAudioTs > dummyAudioFilterMaxGapMs {
+			Log.Warnf("[%s] video timestamp jump, restart dummy audio. prev=%d, ts=%d", filter.uk, filter.prevAudioTs, msg.Header.TimestampAbs)
+			ats := msg.Header.TimestampAbs
 			amsg := filter.makeOneAudio(ats)
 			filter.onPopProxy(amsg)
+			filter.onPopProxy(msg)
 			filter.prevAudioTs = ats
+			return
+		}
+
+		for {
+			// 注意，用64位计算，避免时间戳接近uint32最大值时回绕导致循环无法结束
+			ats := uint64(filter.prevAudioTs) + uint64(filter.calcAudioDurationMs())
+			if ats > uint64(msg.Header.TimestampAbs) {
+				break
+			}
+			amsg := filter.makeOneAudio(uint32(ats))
+			filter.onPopProxy(amsg)
+			filter.prevAudioTs = uint32(ats)
 		}
 		filter.onPopProxy(msg)
 	}
